@@ -1772,6 +1772,20 @@ func (fr *Frame) loopEnv(li *loopInfo, st *State, phiVals map[*ssa.Phi]Term) *Sp
 // lookupLocal resolves a source-level variable name at program point "start of block at".
 func (fr *Frame) lookupLocal(name string, at *ssa.BasicBlock, st *State, li *loopInfo) (SpecVal, bool) {
 	vc := fr.vc
+	// a variable that lives in memory (address taken / captured by a closure): its cell is the
+	// truth, not the SSA value it was initialised with
+	for _, b := range fr.fn.Blocks {
+		for _, in := range b.Instrs {
+			if al, ok := in.(*ssa.Alloc); ok && al.Comment == name {
+				if t, ok := fr.vals[al]; ok {
+					el := al.Type().Underlying().(*types.Pointer).Elem()
+					if v, err := vc.loadRaw(st, t, el); err == nil {
+						return SpecVal{T: v, Ty: el}, true
+					}
+				}
+			}
+		}
+	}
 	refs := fr.dbg[name]
 	var best *dbgRef
 	for i := range refs {
@@ -1782,7 +1796,9 @@ func (fr *Frame) lookupLocal(name string, at *ssa.BasicBlock, st *State, li *loo
 		}
 		if defBlock != nil {
 			if !defBlock.Dominates(at) || defBlock == at {
-				if _, isPhi := r.v.(*ssa.Phi); !(isPhi && defBlock == at) {
+				_, isPhi := r.v.(*ssa.Phi)
+				_, already := fr.vals[r.v]
+				if !(defBlock == at && (isPhi || (li == nil && already))) {
 					continue
 				}
 			}
@@ -1809,6 +1825,29 @@ func (fr *Frame) lookupLocal(name string, at *ssa.BasicBlock, st *State, li *loo
 		}
 	}
 	if best == nil {
+		// a local variable that lives in memory (captured by a closure, address taken): by its name
+		for _, loc := range fr.fn.Locals {
+			if loc.Comment == name {
+				if t, ok := fr.vals[loc]; ok {
+					el := loc.Type().Underlying().(*types.Pointer).Elem()
+					if v, err := vc.loadRaw(st, t, el); err == nil {
+						return SpecVal{T: v, Ty: el}, true
+					}
+				}
+			}
+		}
+		for _, b := range fr.fn.Blocks {
+			for _, in := range b.Instrs {
+				if al, ok := in.(*ssa.Alloc); ok && al.Comment == name {
+					if t, ok := fr.vals[al]; ok {
+						el := al.Type().Underlying().(*types.Pointer).Elem()
+						if v, err := vc.loadRaw(st, t, el); err == nil {
+							return SpecVal{T: v, Ty: el}, true
+						}
+					}
+				}
+			}
+		}
 		return SpecVal{}, false
 	}
 	t, err := fr.value(best.v)
